@@ -37,4 +37,11 @@ def run(ctx):
         "serves re-observation requests while ONE kind of node request of that path (status, events by tx id, header, main chain, height) "
         "fails once / three times and then answers again - the harness plays the dispatcher on a request queue of production capacity it owns "
         "(a sentinel request behind each request is the barrier) and records whatever else the queue holds afterwards, also in every reobs / "
-        "wreobs case and at every restart (reobs-request-requeued, shared with C17)")
+        "wreobs case and at every restart (reobs-request-requeued, shared with C17)"
+        "; mchg: metadata-change histories - token X answers healthily and the token bridge's attestation of X is validated and forwarded "
+        "(polling path, a re-observation request, or both; sometimes a foreign sender's faithful attestation-shaped event is validated first, "
+        "sometimes Run is restarted on the same Watcher), then X's contract answers differently (another symbol / name / decimals, all three, "
+        "or failing calls), now and then a second time (something else, or back to the first values); after each change attestations of the "
+        "EARLIER values (same payload bytes or re-encoded, the first transaction re-observed) must be dropped on both paths "
+        "(attest-mismatch-admitted, reobs-attest-mismatch) and attestations of what X reports NOW must come out (C09: wellformed-event-dropped, "
+        "reobs-wellformed-event-dropped); lives with the real fetch loop and lives handing pages to handleUnconfirmedEvents directly")
